@@ -281,8 +281,7 @@ func h265Reassemble(donl bool, frags [][]byte) (nals [][]byte, why string) {
 // The NAL units of every call are given with their start-code length; the runner builds the Annex-B
 // stream, runs one payloader over the calls, parses and reassembles the packets per RFC 7798 and
 // compares with the units.  A failure is classified as a known finding only if it is *exactly* that
-// finding: the tolerant reassembly that undoes it (a DONL in every FU; a lone S-fragment for a unit of
-// MTU-1 bytes) must reproduce the units.
+// finding: the tolerant reassembly that undoes it (a DONL in every FU) must reproduce the units.
 
 func h265Units(calls []Tok) (streams [][]byte, mtus []int, nals [][]byte) {
 	for _, c := range calls {
@@ -428,22 +427,9 @@ func runH265Lossless(donl, skip bool, calls []Tok) Outcome {
 		return o
 	}
 	o.Fail = why
-	// is this exactly a known finding?
-	lone := false
-	for i, c := range calls {
-		for _, u := range tokList(tokList(c)[1]) {
-			n := len(tokBytes(tokList(u)[1]))
-			if (!donl && n == mtus[i]-1) || (donl && n == mtus[i]-3) {
-				lone = true
-			}
-		}
-	}
-	if t, ok := h265ReassembleTolerant(donl, frags, false, lone); lone && ok && sameUnits(t, nals) {
-		o.Known = "KF-C14-lone-fu"
-	} else if t, ok := h265ReassembleTolerant(donl, frags, donl, false); donl && ok && sameUnits(t, nals) {
+	// is this exactly the known finding?  (a lone start fragment is no longer tolerated: D12 is repaired)
+	if t, ok := h265ReassembleTolerant(donl, frags, donl, false); donl && ok && sameUnits(t, nals) {
 		o.Known = "KF-C14-donl-every-fu"
-	} else if t, ok := h265ReassembleTolerant(donl, frags, donl, lone); donl && lone && ok && sameUnits(t, nals) {
-		o.Known = "KF-C14-donl-every-fu" // together with KF-C14-lone-fu
 	}
 	return o
 }
@@ -730,7 +716,8 @@ func init() {
 				}
 				return us
 			}
-			// the two known findings, as fixed witnesses (printed on every run, whatever the seed)
+			// fixed witnesses: the repaired D12 (MTU 10, a 9-byte unit: now a single NAL unit packet) and the open
+			// finding KF-C14-donl-every-fu (its KNOWN-FINDING line is printed on every run, whatever the seed)
 			{
 				c := r.Fork(8800)
 				emit(1406, TI(0), TI(0), TList{TList{TI(10), unitsTok(c, [][]byte{{2, 1, 10, 11, 12, 13, 14, 15, 16}})}})
